@@ -172,6 +172,14 @@ class BanditManager:
                     else "txt"
                 )
 
+            # a lone surrogate (an undecodable byte of a file name, a "\ud800"
+            # escape in a reported string constant) cannot be encoded: write
+            # it as an escape instead of failing to produce a report
+            # (the screen formatter prints to sys.stdout whatever the file)
+            for stream in (output_file, sys.stdout):
+                if isinstance(stream, io.TextIOWrapper):
+                    stream.reconfigure(errors="backslashreplace")
+
             formatter = formatters_mgr[output_format]
             report_func = formatter.plugin
             if output_format == "custom":
